@@ -198,9 +198,10 @@ Section Entry.
     intros Hk Hkn. unfold entry_arrays. cbn [find_ax].
     destruct (Z.eqb_spec (k mod n) 0) as [H|_]; [contradiction|].
     rewrite Z.mod_mul, Z.eqb_refl by lia.
-    cbn [Z.to_nat nth ndim length Z.of_nat Z.add Pos.to_nat Pos.iter_op Nat.add].
+    change (Z.to_nat (0 + 1)) with 1%nat. cbn [nth].
     rewrite Z.div_mul by lia.
-    change (2 <? Z.of_nat 2) with false. change (Z.of_nat 2 =? 1) with false.
+    change (ndim [k; c * n]) with 2.
+    change (2 <? 2) with false. change (2 =? 1) with false.
     change (Z.to_nat ((0 + 1 + 1) mod 2)) with 0%nat. cbn [nth].
     destruct (Z.ltb_spec 1 k) as [_|H]; [|lia]. reflexivity.
   Qed.
@@ -213,9 +214,10 @@ Section Entry.
             (zrange k)).
   Proof.
     intros Hk. unfold entry_arrays. rewrite find_ax_first.
-    cbn [Z.to_nat nth ndim length Z.of_nat].
+    change (Z.to_nat 0) with 0%nat. cbn [nth].
     rewrite Z.div_mul by lia.
-    change (2 <? Z.of_nat 2) with false. change (Z.of_nat 2 =? 1) with false.
+    change (ndim [c * n; k]) with 2.
+    change (2 <? 2) with false. change (2 =? 1) with false.
     change (Z.to_nat ((0 + 1) mod 2)) with 1%nat. cbn [nth].
     destruct (Z.ltb_spec 1 k) as [_|H]; [|lia]. reflexivity.
   Qed.
@@ -287,7 +289,7 @@ Proof.
   assert (Hsub : forall k point n x,
              In (Ok x) [collect (map (fun v => entry_arrays point (dim g =? 2) n (vkey v) (vshape v) (vwords v))
                                      (filter (is_kind k g) vs))] -> Forall words_ok x).
-  { intros k point n x [Hx|[]]. symmetry in Hx. apply (collect_Forall words_ok) in Hx; [exact Hx|].
+  { intros k point n x [Hx|[]]. apply (collect_Forall words_ok) in Hx; [exact Hx|].
     intros y Hy. apply in_map_iff in Hy as (v & Ev & Hv). apply filter_In in Hv as (Hv & _).
     rewrite Forall_forall in Hvs. apply (entry_arrays_words_ok _ _ _ _ _ _ _ (Hvs v Hv) Ev). }
   intros x [Hx|[Hx|[]]].
@@ -327,7 +329,7 @@ Proof.
   intros (Hx & Hy & Hz). unfold extent, sp. rewrite split_join.
   - cbn [map]. rewrite !parse_dec_dec by lia. reflexivity.
   - discriminate.
-  - repeat constructor; apply digits_no_space, dec_digits; lia.
+  - repeat (apply Forall_cons; [apply digits_no_space, dec_digits; lia|]). apply Forall_nil.
 Qed.
 
 (* ---- file names of WriteToVTI ---- *)
@@ -345,3 +347,138 @@ Proof. unfold iter_filename. apply splitext_join. Qed.
 (* nzeros: 10^(k-1) < n <= 10^k is not needed below; small facts used by the examples *)
 Example nzeros_values : map nzeros [1; 2; 9; 10; 11; 100; 101] = [0; 1; 1; 1; 2; 2; 3].
 Proof. vm_compute. reflexivity. Qed.
+
+(* the ".vti" suffix rule of write_to_vti keeps the per-iteration names distinct *)
+Lemma digits_prefix_unique c : ~ is_digit c -> forall A B r r',
+  Forall is_digit A -> Forall is_digit B -> A ++ c :: r = B ++ c :: r' -> A = B /\ r = r'.
+Proof.
+  intros Hc. induction A as [|a A IH]; intros B r r' HA HB E.
+  - destruct B as [|b B]; cbn in E.
+    + inversion E. auto.
+    + inversion E; subst. inversion HB; subst. contradiction.
+  - destruct B as [|b B]; cbn in E.
+    + inversion E; subst. inversion HA; subst. contradiction.
+    + inversion E; subst. inversion HA; inversion HB; subst.
+      destruct (IH B r r') as (-> & ->); auto.
+Qed.
+
+Theorem wvti_filenames_distinct saveto i j : 0 <= i -> 0 <= j ->
+  vti_filename (iter_filename saveto false i) = vti_filename (iter_filename saveto false j) -> i = j.
+Proof.
+  intros Hi Hj.
+  assert (Hcase : forall fn, vti_filename fn = fn ++ [] \/ vti_filename fn = fn ++ s2z ".vti").
+  { intros fn. unfold vti_filename. destruct (contains _ _); [left; now rewrite app_nil_r | now right]. }
+  assert (Hno : forall a b, 0 <= a -> 0 <= b ->
+            iter_filename saveto false a ++ [] = iter_filename saveto false b ++ s2z ".vti" -> False).
+  { intros a b Ha Hb E. rewrite app_nil_r in E. unfold iter_filename in E.
+    rewrite <- !app_assoc in E. apply app_inv_head in E. cbn [app] in E. inversion E as [E1]. clear E.
+    pose proof (zpad_digits 4 a Ha) as Da. pose proof (zpad_digits 4 b Hb) as Db.
+    destruct (splitext_ext saveto) as [Ee|(t & Ee)]; rewrite Ee in E1.
+    - rewrite app_nil_r in E1. cbn [app] in E1. rewrite E1 in Da. apply Forall_app in Da as (_ & Da).
+      inversion Da as [|? ? H46 _]; subst. unfold is_digit in H46. cbn in H46. lia.
+    - cbn [app] in E1.
+      apply (digits_prefix_unique 46) in E1; [|unfold is_digit; lia|assumption|assumption].
+      destruct E1 as (_ & E1). apply (f_equal (@length Z)) in E1. rewrite app_length in E1. cbn in E1. lia. }
+  destruct (Hcase (iter_filename saveto false i)) as [Ei|Ei], (Hcase (iter_filename saveto false j)) as [Ej|Ej];
+    rewrite Ei, Ej; intros E.
+  - apply app_inv_tail in E. now apply iter_filename_inj in E.
+  - exfalso. eapply (Hno i j); eauto.
+  - exfalso. eapply (Hno j i); eauto.
+  - apply app_inv_tail in E. now apply iter_filename_inj in E.
+Qed.
+
+(* ---- composing layout and round trip: decoded arrays are the float32 images of the input entries ---- *)
+Lemma zrange_map_nth {A} (f : Z -> A) k i d : 0 <= i < k -> nth (Z.to_nat i) (map f (zrange k)) d = f i.
+Proof.
+  intros Hi. unfold zrange. rewrite map_map.
+  rewrite (nth_indep _ d (f (Z.of_nat 0))) by (rewrite map_length, seq_length; lia).
+  rewrite (map_nth (fun x => f (Z.of_nat x)) (seq 0 (Z.to_nat k)) 0%nat).
+  rewrite seq_nth by lia. f_equal. lia.
+Qed.
+
+Section F32.
+  Variable V : Type.
+  Variable f32 : V -> word.                       (* ndarray.astype(np.float32), one entry *)
+  Hypothesis f32_ok : forall v, word_ok (f32 v).  (* it produces four bytes *)
+
+  Lemma map_f32_ok vals : Forall word_ok (map f32 vals).
+  Proof. apply Forall_forall. intros w Hw. apply in_map_iff in Hw as (v & <- & _). apply f32_ok. Qed.
+
+  (* the words one reads back from the array written for the values `vals` *)
+  Definition expected_words (padv : bool) (vals : list V) : list word :=
+    if padv then pad_spec zero_word (map f32 vals) else map f32 vals.
+
+  Theorem mk_array_decodes point padv n c name vals :
+    (padv = true -> length vals = (2 * Z.to_nat n)%nat) ->
+    let d := mk_array point padv n c name (map f32 vals) in
+    da_point d = point /\ da_name d = name /\ da_ncomp d = (if padv then 3 else c) /\
+    option_map chunk4 (vtk_block_data (vtk_block (concat (da_words d)))) = Some (expected_words padv vals).
+  Proof.
+    intros Hl d. subst d. unfold mk_array, expected_words. destruct padv; cbn [da_point da_name da_ncomp da_words].
+    - repeat split. rewrite pad3_spec by (rewrite map_length; auto).
+      assert (H : Forall word_ok (pad_spec zero_word (map f32 vals)))
+        by (apply pad_spec_Forall; [apply zero_word_ok | apply map_f32_ok]).
+      destruct (array_decodes _ H) as (-> & E). cbn [option_map]. now rewrite E.
+    - repeat split. destruct (array_decodes _ (map_f32_ok vals)) as (-> & E). cbn [option_map]. now rewrite E.
+  Qed.
+
+  (* a vector: one array named by the key *)
+  Theorem decode_vector point dim2 n key c vals :
+    0 < n -> length vals = Z.to_nat (c * n) ->
+    let padv := point && (c =? 2) && dim2 in
+    exists d, entry_arrays point dim2 n key [c * n] (map f32 vals) = Ok [d] /\
+      da_point d = point /\ da_name d = key /\ da_ncomp d = (if padv then 3 else c) /\
+      option_map chunk4 (vtk_block_data (vtk_block (concat (da_words d)))) = Some (expected_words padv vals).
+  Proof.
+    intros Hn Hl padv. eexists. split; [apply entry_1d; exact Hn|].
+    apply mk_array_decodes. intros Hp. subst padv.
+    apply andb_true_iff in Hp as (Hp & _). apply andb_true_iff in Hp as (_ & Hc). apply Z.eqb_eq in Hc. subst c.
+    rewrite Hl. lia.
+  Qed.
+
+  (* a block: array i is named key(i) and holds row i (shape k x c*n) resp. column i (shape c*n x k) *)
+  Theorem decode_block_rows point dim2 n key k c vals :
+    0 < n -> 1 < k -> k mod n <> 0 ->
+    let padv := point && (c =? 2) && dim2 in
+    exists ds, entry_arrays point dim2 n key [k; c * n] (map f32 vals) = Ok ds /\ length ds = Z.to_nat k /\
+      forall i, 0 <= i < k ->
+        (padv = true -> length (block_row (c * n) i vals) = (2 * Z.to_nat n)%nat) ->
+        let d := nth (Z.to_nat i) ds (mkDA false [] 0 []) in
+        da_point d = point /\ da_name d = vec_name point k key i /\ da_ncomp d = (if padv then 3 else c) /\
+        option_map chunk4 (vtk_block_data (vtk_block (concat (da_words d))))
+          = Some (expected_words padv (block_row (c * n) i vals)).
+  Proof.
+    intros Hn Hk Hkn padv. eexists. split; [apply entry_block_rows; assumption|]. split.
+    - rewrite map_length. unfold zrange. now rewrite map_length, seq_length.
+    - intros i Hi Hl d. subst d. rewrite zrange_map_nth by exact Hi. rewrite block_row_map.
+      apply mk_array_decodes. exact Hl.
+  Qed.
+
+  Theorem decode_block_cols point dim2 n key k c vals :
+    0 < n -> 1 < k ->
+    let padv := point && (c =? 2) && dim2 in
+    exists ds, entry_arrays point dim2 n key [c * n; k] (map f32 vals) = Ok ds /\ length ds = Z.to_nat k /\
+      forall i, 0 <= i < k ->
+        (padv = true -> length (block_col k i vals) = (2 * Z.to_nat n)%nat) ->
+        let d := nth (Z.to_nat i) ds (mkDA false [] 0 []) in
+        da_point d = point /\ da_name d = vec_name point k key i /\ da_ncomp d = (if padv then 3 else c) /\
+        option_map chunk4 (vtk_block_data (vtk_block (concat (da_words d))))
+          = Some (expected_words padv (block_col k i vals)).
+  Proof.
+    intros Hn Hk padv. eexists. split; [apply entry_block_cols; assumption|]. split.
+    - rewrite map_length. unfold zrange. now rewrite map_length, seq_length.
+    - intros i Hi Hl d. subst d. rewrite zrange_map_nth by exact Hi. rewrite block_col_map.
+      apply mk_array_decodes. exact Hl.
+  Qed.
+End F32.
+
+Theorem padding_full {A} (z d : A) nn v : length v = (2 * nn)%nat ->
+  pad3 z nn v = pad_spec z v /\ length (pad3 z nn v) = (3 * nn)%nat /\
+  forall k, (k < nn)%nat ->
+    nth (3 * k) (pad3 z nn v) d = nth (2 * k) v d /\
+    nth (3 * k + 1) (pad3 z nn v) d = nth (2 * k + 1) v d /\
+    nth (3 * k + 2) (pad3 z nn v) d = z.
+Proof.
+  intros Hl. rewrite (pad3_spec z nn v Hl). split; [reflexivity|]. split; [now apply pad_spec_length|].
+  intros k Hk. apply pad_spec_nth. lia.
+Qed.
